@@ -29,11 +29,22 @@
   always answers as if every object were recomputed from its current field values".  The *content* of
   serialisation, identifiers and `==` is the business of C01/C02 (`Model.Wire`, `Model.Ident`), the
   constructor checks of C16, the merkle root of C15; the digest of `RawSignatureHash` of C03.
-  The bridge to C02's class clause is `heap_ident_eq_value` below.
+  The bridge to C02's class clause is `heap_ident_eq_value` below; the bridge of the heap `rawSigHash` digest to
+  `Model.Sighash` is `rawSigHash_eq_sighash_model` (UNPROVED, `…_partial` + T2 tie, at the end of the file).
+
+  **Finding D23 (audit 2, N4).**  The first sentence of C09 has no catalogue restriction: an object of an
+  immutable class whose content can change violates it.  The model is therefore property-conforming for the
+  constructors of the immutable classes — `CTxWitness(vtxinwit)` / `CScriptWitness(stack)` hold tuples,
+  `CTxIn(prevout, …)` an immutable copy of the outpoint — and `InvX` has no exception: everything reachable
+  from an immutable-class object is immutable (`immutable_reach_ext`, `immutable_reach_reachable_ext`,
+  `witness_list_edit_rejected_ext`, `witness_stack_edit_rejected_ext`).  /repo before
+  fixes/D23-immutables-freeze-constructor-arguments.patch stores the caller's list / mutable outpoint; the check
+  reports it (signature `D23-immutable-holds-mutable-part`, corpus/C09/D23-immutable-holds-mutable-part.json).
 -/
 import BtcVerif.Proofs.HeapAll
 import BtcVerif.Proofs.ValueFrame
 import BtcVerif.Proofs.HeapX8
+import BtcVerif.Model.Sighash
 
 namespace BtcVerif.C09
 open BtcVerif BtcVerif.Model.Heap BtcVerif.Spec.ValueSem BtcVerif.Spec.AliasSem
@@ -273,11 +284,15 @@ theorem copy_unaffected (pre post : List Op) {r : Nat} {e : Entry}
 
   `Spec.AliasSem.OpX` adds to the catalogue `obj.attr = <existing object>`, `lst.append(<existing object>)`,
   `lst[i] = <existing object>`, `CMutableTransaction(<existing vin>, <existing vout>, …)`,
-  `CMutableTxIn(<existing outpoint>, …)` and the `witness=None` constructor path (an immutable
-  `CTxWitness` over a Python list).  After such steps objects legitimately share state, so separation
-  is no longer a state invariant.  `InvX` (Proofs/HeapX1.lean) keeps what stays true of every reachable
-  heap: (i') closure of immutability (modulo that list, which no operation writes), (ii) correctness of
-  every filled cache, classes, one-step typing of references, the shared default objects.
+  `CMutableTxIn(<existing outpoint>, …)`, the `witness=None` constructor path, `CTxIn(<existing outpoint>, …)`
+  and the edits of a witness's `vtxinwit` / `scriptWitness.stack` sequences.  After such steps objects
+  legitimately share state, so separation is no longer a state invariant.  `InvX` (Proofs/HeapX1.lean)
+  keeps what stays true of every reachable heap: (i') closure of immutability WITHOUT EXCEPTION — an
+  immutable-class object refers to immutable objects only, never to a mutable object or a Python list
+  (audit 2 / D23: the model is property-conforming, the constructors of the immutable classes freeze
+  what they are given; /repo before the D23 repair stores the caller's list / mutable outpoint, which the
+  check reports as a violation), (ii) correctness of every filled cache, classes, one-step typing of
+  references, the shared default objects.
   Clause (iii) is restated as in DESIGN §6 — a property of the copy operations: `copy_fresh_ext`. -/
 
 theorem inv_init_ext : InvX Model.Heap.init.heap := invx_init
@@ -298,12 +313,11 @@ theorem cache_correct_ext {h : Heap} (hinv : InvX h) {a : Addr} {o : Obj} (ho : 
     (∀ c, o.cPy = some c → ∃ v, absVal h a = some v ∧ pyHashOf v = .ok c) :=
   hinv.cacheOK a o ho hm
 
-/-- (i') everything reachable from an immutable object is immutable — or the Python list behind a
-    default `CTxWitness`, whose items are immutable and which no operation of the catalogue writes -/
+/-- (i') everything reachable from an immutable object is immutable (no exception) -/
 theorem immutable_reach_ext {h : Heap} (hinv : InvX h) {f : Nat} {a : Addr} {t : ATree} {o : Obj}
     (hu : unfoldA f h a = some t) (ho : h[a]? = some o) (hm : o.isMut = false) :
-    ∀ x ∈ addrs t, ∃ ox : Obj, h[x]? = some ox ∧ (ox.isMut = false ∨ ox.sc.kind = 10) :=
-  imm_reachX hinv.immClosed hinv.kindOK hinv.typed hu (fun o' ho' => by rw [ho] at ho'; cases ho'; exact Or.inl hm)
+    ∀ x ∈ addrs t, ∃ ox : Obj, h[x]? = some ox ∧ ox.isMut = false :=
+  imm_reachX hinv.immClosed hinv.kindOK hinv.typed hu (fun o' ho' => by rw [ho] at ho'; cases ho'; exact hm)
 
 /-- **(iii) as in DESIGN §6**: no mutable object is reachable from two roots where one was created by
     a copy operation from the other.  After `CMutableX.from_x(src)` every writable object reachable
@@ -315,7 +329,7 @@ theorem copy_fresh_ext {h : Heap} (hinv : InvX h) {a : Addr} {ta : ATree} {p : P
     InvX (allocPlan h p).1 ∧ (∃ e, (allocPlan h p).1 = h ++ e) ∧
     ∃ t', unfoldA D (allocPlan h p).1 (allocPlan h p).2 = some t' ∧
       ∀ (x : Addr) (ox : Obj), x ∈ addrs t' → (allocPlan h p).1[x]? = some ox → ox.isMut = true →
-        ox.sc.kind ≠ 10 → h.length ≤ x :=
+        h.length ≤ x :=
   copy_fresh hinv hu hp
 
 /-- `RawSignatureHash` under arbitrary aliasing: every existing object is left exactly as it was -/
@@ -368,7 +382,7 @@ theorem immutable_setref_rejected_ext (s : St) (t src : Target) (slot : Nat) {x 
 theorem immutable_slots_stable_ext {s : St} (hinv : InvX s.heap) (op : OpX) {a : Addr} {o : Obj}
     (ho : s.heap[a]? = some o) (hm : o.isMut = false) :
     ∃ o' : Obj, (Model.HeapX.stepX s op).1.heap[a]? = some o' ∧ o'.isMut = false ∧ o'.sc = o.sc ∧ o'.refs = o.refs := by
-  obtain ⟨o', ho', e1, e2, e3⟩ := (trx_step hinv op).keep a o ho (Or.inl hm)
+  obtain ⟨o', ho', e1, e2, e3⟩ := (trx_step hinv op).keep a o ho hm
   exact ⟨o', ho', by rw [e1, hm], e2, e3⟩
 
 /-- … hence **a snapshot is never affected**: the value (and so the serialisation, identifiers, hash,
@@ -382,7 +396,7 @@ theorem immutable_value_stable_ext {s : St} (hinv : InvX s.heap) (op : OpX) {a :
   | none => simp [hu] at hv
   | some t =>
     rw [unfoldA_keep hinv.immClosed hinv.kindOK hinv.typed (trx_step hinv op).keep hu
-      (fun o' ho' => by rw [ho] at ho'; cases ho'; exact Or.inl hm)]
+      (fun o' ho' => by rw [ho] at ho'; cases ho'; exact hm)]
     simpa [hu] using hv
 
 /-- the same over any history -/
@@ -394,7 +408,7 @@ theorem immutable_value_stable_run_ext {s : St} (hinv : InvX s.heap) (ops : List
   | none => simp [hu] at hv
   | some t =>
     rw [unfoldA_keep hinv.immClosed hinv.kindOK hinv.typed (trx_run ops hinv).keep hu
-      (fun o' ho' => by rw [ho] at ho'; cases ho'; exact Or.inl hm)]
+      (fun o' ho' => by rw [ho] at ho'; cases ho'; exact hm)]
     simpa [hu] using hv
 
 /-- **identifiers reflect the current field values, shared ones included**: `GetHash()` on any target
@@ -413,6 +427,49 @@ theorem ser_reflects_value_ext (s : St) (t : Target) {x : Addr} {o : Obj} {v : V
   show (Model.Heap.step s (.ser t)).2 = _
   simp [Model.Heap.step, observeAt, ht, ho, hv, hs]
 
+/-- … in every heap the extended catalogue can reach: whatever the history (default witnesses, `CTxIn` built
+    over a caller's mutable outpoint, user-made sharing of lists and objects), nothing mutable — no object of a
+    mutable class, no Python list — is reachable from an object of an immutable class -/
+theorem immutable_reach_reachable_ext (ops : List OpX) {f : Nat} {a : Addr} {t : ATree} {o : Obj}
+    (hu : unfoldA f (Model.HeapX.runX Model.Heap.init ops).1.heap a = some t)
+    (ho : (Model.HeapX.runX Model.Heap.init ops).1.heap[a]? = some o) (hm : o.isMut = false) :
+    ∀ x ∈ addrs t, ∃ ox : Obj, (Model.HeapX.runX Model.Heap.init ops).1.heap[x]? = some ox ∧ ox.isMut = false :=
+  immutable_reach_ext (inv_reachable_ext ops) hu ho hm
+
+/-- `w.vtxinwit[i] = …` raises TypeError and `w.vtxinwit.append(…)` AttributeError for every `CTxWitness`
+    object `w` (also the default one of `CMutableTransaction(vin, vout)`, also one built from a list): the
+    sequence inside an immutable-class object is a tuple -/
+theorem witness_list_edit_rejected_ext (s : St) (t : Target) (i : Option Nat) (st : WitStack) {x : Addr}
+    (ht : s.target t = some x) (hk : Model.HeapX.kindAt s.heap x = some 4) :
+    Model.HeapX.stepX s (.witListEdit t i st) =
+      (s.skip, .err (if i.isSome then typeError else attributeError)) := by
+  simp [Model.HeapX.stepX, ht, hk]
+
+/-- likewise `iw.scriptWitness.stack[j] = b` / `.append(b)` for every `CTxInWitness` object -/
+theorem witness_stack_edit_rejected_ext (s : St) (t : Target) (j : Option Nat) (b : Bytes) {x : Addr}
+    (ht : s.target t = some x) (hk : Model.HeapX.kindAt s.heap x = some 3) :
+    Model.HeapX.stepX s (.stackEdit t j b) =
+      (s.skip, .err (if j.isSome then typeError else attributeError)) := by
+  simp [Model.HeapX.stepX, ht, hk]
+
+theorem runX_base (s : St) : ∀ ops : List Op,
+    Model.HeapX.runX s (ops.map OpX.base) = Model.Heap.run s ops
+  | [] => rfl
+  | op :: ops => by
+    simp only [List.map_cons, Model.HeapX.runX, Model.Heap.run, Model.HeapX.stepX]
+    rw [runX_base _ ops]
+
+/-- the proved part of `refines_alias_spec` (below): on histories WITHOUT by-reference operations — all
+    arguments are fresh values, so no sharing can arise and a cell store is not needed — the heap model
+    of the extended catalogue yields, observation by observation, what the value store `Spec.ValueSem`
+    yields.  Missing for the full statement: the 10 operations of `OpX` that are not `.base`, and the
+    reference side `Spec.AliasSem` in place of `Spec.ValueSem` (that `Spec.AliasSem.stepBase` agrees with
+    `Spec.ValueSem.step` on such histories is not proved either; both are compared with the heap model
+    on every generated case by `c09.runc`). -/
+theorem refines_alias_spec_partial (ops : List Op) :
+    (Model.HeapX.runX Model.Heap.init (ops.map OpX.base)).2 = (Spec.ValueSem.run Spec.ValueSem.init ops).2 := by
+  rw [runX_base, refines_value_spec]
+
 -- UNPROVED (full statement): the heap model of the extended catalogue refines the store of cells with
 -- explicit aliasing (`Spec.AliasSem`), on every observable, for every history:
 --
@@ -430,10 +487,63 @@ theorem ser_reflects_value_ext (s : St) (t : Target) {x : Addr} {o : Obj} {v : V
 -- `RawSignatureHash`/`VerifyScript` leave every existing object as it is (`sighash_preserves_heap_ext`,
 -- `verify_preserves_heap_ext`).  Missing for the full statement: the simulation relation between
 -- addresses of mutable objects and cells (an injection extended by every allocation) and its
--- preservation by the 32 operations; in particular that a mutable copy stays unaffected by LATER edits
+-- preservation by the 35 operations; in particular that a mutable copy stays unaffected by LATER edits
 -- of other objects (it follows from `copy_fresh_ext` plus a frame argument per operation).  The
--- statement is tied by T2 instead: `c09.xcheck` runs every generated history on `Model.HeapX` and on
+-- statement is tied by T2 instead: `c09.runc` runs every generated history on `Model.HeapX` and on
 -- `Spec.AliasSem` and compares all observations (harness: every case of both tiers).
+-- Proved part: `refines_alias_spec_partial` (histories without by-reference operations).
+
+/-! ### the digest of the heap `RawSignatureHash` and `Model.Sighash` (audit 2, Q4) -/
+
+theorem validTx_eq_fromTxOk (t : Tx) :
+    validTx t = (t.vin.all Model.Sighash.fromTxInOk && decide (t.nLockTime ≤ 0xffffffff)) := by
+  rw [Bool.eq_iff_iff]
+  simp only [validTx, validTxIn, validOutPoint, Model.Sighash.fromTxInOk, Bool.and_eq_true, List.all_eq_true,
+    decide_eq_true_eq, beq_iff_eq]
+  constructor
+  · rintro ⟨h1, h2⟩; exact ⟨fun i hi => ⟨⟨(h2 i hi).1.1, (h2 i hi).1.2⟩, (h2 i hi).2⟩, h1⟩
+  · rintro ⟨h1, h2⟩; exact ⟨h2, fun i hi => ⟨⟨(h1 i hi).1.1, (h1 i hi).1.2⟩, (h1 i hi).2⟩⟩
+
+/-- the proved part of the bridge `rawSigHash_eq_sighash_model` (below): on the two exits taken before the
+    private copy is edited — input index out of range (`HASH_ONE`), `CMutableTransaction.from_tx` raising
+    ValueError — the heap execution leaves the heap as it is and yields what `Model.Sighash.rawSignatureHash`
+    yields on the value at that address, for every script.  Missing: the main path (the value of the private
+    copy after each surgery step); it is compared on every generated `sighash` step by `c09.runc`. -/
+theorem rawSigHash_eq_sighash_model_partial {h : Heap} {a : Addr} {t : Tx} (script sub : Bytes) (inIdx ht : Nat)
+    (habs : absVal h a = some (.tx t)) (hexit : inIdx ≥ t.vin.length ∨ validTx t = false) :
+    rawSigHash h a sub inIdx ht =
+      some (h, (Model.Sighash.rawSignatureHash script t inIdx (ht : Int)).map (·.1)) := by
+  simp only [rawSigHash, habs, Model.Sighash.rawSignatureHash]
+  by_cases hi : inIdx ≥ t.vin.length
+  · simp only [hi, if_true]
+    rfl
+  · have hv : validTx t = false := hexit.resolve_left hi
+    simp only [hi, if_false, hv, Bool.not_false, if_true]
+    have hf : Model.Sighash.fromTx t = .error .valueerr := by
+      simp only [Model.Sighash.fromTx]
+      rw [validTx_eq_fromTxOk] at hv
+      simp only [hv]
+      rfl
+    simp only [hf]
+    rfl
+
+-- UNPROVED (full statement): the digest the heap execution of `RawSignatureHash` computes is the digest
+-- `Model.Sighash.rawSignatureHash` (the model C03/C05/C06 are about) computes on the VALUE of the transaction
+-- object at that address — whatever sharing the caller has set up:
+--
+--   theorem rawSigHash_eq_sighash_model {h h' : Heap} (hinv : InvX h) {a : Addr} {t : Tx} {script sub : Bytes}
+--       {inIdx ht : Nat} {d : Res Bytes} (habs : absVal h a = some (.tx t))
+--       (hfad : Model.Sighash.findAndDelete script [0xab] = .ok sub)
+--       (hr : rawSigHash h a sub inIdx ht = some (h', d)) :
+--       d = (Model.Sighash.rawSignatureHash script t inIdx (ht : Int)).map (·.1)
+--
+-- Proved: `rawSigHash_eq_sighash_model_partial` (the exits before the surgery), `rawSigHash_ext` /
+-- `sighash_preserves_heap_ext` (the execution is not stuck on a heap satisfying `InvX` and leaves every existing
+-- object as it is), `copy_fresh_ext` (the private copy shares nothing writable).  Missing: the value of the
+-- private copy after each step of the surgery (`sigScripts`, `sigNone`, `sigSingle`, `sigAnyone`, `sigWit`)
+-- equals `pruneOutputs`/`pruneInputs`/… of `Model.Sighash` applied to `t`.  T2 tie: `c09.runc` computes both
+-- digests on every `sighash` step of every generated history and reports a difference as `@@diff@k`; the
+-- harness in addition compares the heap digest with Python's `RawSignatureHash`.
 
 /-! ### non-vacuity: concrete histories -/
 
@@ -474,16 +584,23 @@ example :
   ⟨rfl, fun _ _ _ => rfl⟩
 
 /-- aliasing through the extended catalogue: `tx1.vin = tx0.vin`, snapshot of `tx1`, edit through
-    `tx0`: the two mutable transactions change together, the snapshot does not; the default witness is
-    list-backed and its cached hash stays right after `tx.wit = …` -/
+    `tx0`: the two mutable transactions change together, the snapshot does not; the default witness is an
+    immutable object over a tuple: its list edits are rejected, its cached hash stays right; `CTxIn` over a
+    caller's mutable outpoint keeps a copy: editing the outpoint afterwards does not reach it -/
 example :
     (Model.HeapX.runX Model.Heap.init
       [.base (.newTx tx0), .newTxDefault tx0, .assignRef ⟨1, []⟩ 0 ⟨0, [0]⟩, .base (.snapshot ⟨1, []⟩),
        .base (.eq ⟨0, []⟩ ⟨1, []⟩), .base (.assign ⟨0, [0, 0, 0]⟩ (.n 7)), .base (.eq ⟨0, []⟩ ⟨1, []⟩),
        .base (.eq ⟨1, []⟩ ⟨3, []⟩), .base (.getHash ⟨1, [2]⟩), .base (.setWit 1 [[[1]]]),
-       .base (.eq ⟨1, [2]⟩ ⟨3, [2]⟩)]).2 =
+       .base (.eq ⟨1, [2]⟩ ⟨3, [2]⟩), .witListEdit ⟨3, [2]⟩ (some 0) [[7]], .witListEdit ⟨1, [2]⟩ none [],
+       .stackEdit ⟨1, [2, 0, 0]⟩ (some 0) [7], .newCTxInFrom (some ⟨0, [0, 0, 0]⟩) [0x51] 5,
+       .base (.getHash ⟨14, []⟩), .base (.assign ⟨0, [0, 0, 0]⟩ (.n 9)), .base (.getHash ⟨14, []⟩),
+       .base (.ser ⟨14, [0]⟩)]).2 =
     [.created, .created, .done, .created, .bool (.ok true), .done, .bool (.ok true), .bool (.ok false),
-     .bytes (identOf (.wit [[]])), .done, .bool (.ok false)] := by
+     .bytes (identOf (.wit [[]])), .done, .bool (.ok false), .err typeError, .err attributeError, .err typeError,
+     .created, .bytes (identOf (.txin ⟨⟨List.replicate 32 0x11, 7⟩, [0x51], 5⟩)), .done,
+     .bytes (identOf (.txin ⟨⟨List.replicate 32 0x11, 7⟩, [0x51], 5⟩)),
+     .bytes (serVal (.outpoint ⟨List.replicate 32 0x11, 7⟩))] := by
   rfl
 
 end BtcVerif.C09
